@@ -1,0 +1,91 @@
+//go:build verif
+
+// Round 7: the function literals behind "an ephemeral topic / channel disappears once its last consumer / channel leaves" (C08) - until
+// now only the START of the deletion was under contract (`go x.deleter.Do(..)`, the onceSpawns ghosts of RemoveClient and
+// DeleteExistingChannel); what the started function does was not. Comment-only file.
+
+package nsqd
+
+// The callbacks stored in Channel.deleteCallback / Topic.deleteCallback are function values: the call through the field is opaque
+// (`modifies *`), recorded in free ghosts - how many, and which object was handed over.
+//@ ghost[free] r7ChanCbCalls int
+//@ ghost[free] r7ChanCbArg *Channel
+//@ ghost[free] r7TopicCbCalls int
+//@ ghost[free] r7TopicCbArg *Topic
+//@ extern fieldfunc:github.com/nsqio/nsq/nsqd.Channel.deleteCallback(c)
+//@   modifies *
+//@   onreturn r7ChanCbCalls := r7ChanCbCalls + 1
+//@   onreturn r7ChanCbArg := c
+//@ extern fieldfunc:github.com/nsqio/nsq/nsqd.Topic.deleteCallback(t)
+//@   modifies *
+//@   onreturn r7TopicCbCalls := r7TopicCbCalls + 1
+//@   onreturn r7TopicCbArg := t
+
+// RemoveClient$1 (run once by c.deleter): the channel hands ITSELF to its delete callback, once.
+//@ func (c *Channel) RemoveClient$1()
+//@   props C08
+//@   requires c != nil && c.deleteCallback != nil
+//@   ensures[the-channel-itself-once] r7ChanCbCalls == old(r7ChanCbCalls) + 1 && r7ChanCbArg == old(c)
+
+// DeleteExistingChannel$1 (run once by t.deleter): the topic hands ITSELF to its delete callback, once.
+//@ func (t *Topic) DeleteExistingChannel$1()
+//@   props C08
+//@   requires t != nil && t.deleteCallback != nil
+//@   ensures[the-topic-itself-once] r7TopicCbCalls == old(r7TopicCbCalls) + 1 && r7TopicCbArg == old(t)
+
+// getOrCreateChannel$1 (the delete callback of every channel created by getOrCreateChannel): removes the channel handed in, BY ITS NAME,
+// from the topic that created it - one DeleteExistingChannel call (jDelChan* ghosts of zz_contracts_jhttp_verif.go).
+//@ func (t *Topic) getOrCreateChannel$1(c *Channel)
+//@   props C08
+//@   requires c != nil && t != nil && t.nsqd != nil
+//@   ensures[deletes-that-channel-from-its-topic] jDelChanCalls == old(jDelChanCalls) + 1 && jDelChanTopic == old(t) && jDelChanName == old(c.name)
+
+// GetTopic$1 (the delete callback of every topic created by GetTopic): deletes the topic handed in, BY ITS NAME, from the daemon that
+// created it - one DeleteExistingTopic call (jDelTopic* ghosts).
+//@ func (n *NSQD) GetTopic$1(t *Topic)
+//@   props C08
+//@   requires t != nil && n != nil
+//@   ensures[deletes-that-topic-from-the-daemon] jDelTopicCalls == old(jDelTopicCalls) + 1 && jDelTopicName == old(t.name)
+
+// init (the synthetic package initializer): the protocol constants the contracts of the command handlers name symbolically (`result0 ==
+// okBytes`, jBinaryMode reads boolParams) have exactly the documented content - "OK" is the two bytes O K, the heartbeat frame body is
+// _heartbeat_, command parameters are separated by ONE space, and the boolean query parameters are true/1 and false/0.
+//@ func init()
+//@   props C10 C09 C03
+//@   ensures[ok-is-OK] len(okBytes) == 2 && okBytes[0] == 79 && okBytes[1] == 75
+//@   ensures[separator-is-one-space] len(separatorBytes) == 1 && separatorBytes[0] == 32
+//@   ensures[heartbeat-text] len(heartbeatBytes) == 11 && heartbeatBytes[0] == 95 && heartbeatBytes[1] == 104 && heartbeatBytes[2] == 101 && heartbeatBytes[3] == 97 && heartbeatBytes[4] == 114 &&
+//@        heartbeatBytes[5] == 116 && heartbeatBytes[6] == 98 && heartbeatBytes[7] == 101 && heartbeatBytes[8] == 97 && heartbeatBytes[9] == 116 && heartbeatBytes[10] == 95
+//@   ensures[boolean-parameter-table] len(boolParams) == 4 && has(boolParams, "true") && boolParams["true"] && has(boolParams, "1") && boolParams["1"] &&
+//@        has(boolParams, "false") && !boolParams["false"] && has(boolParams, "0") && !boolParams["0"]
+
+// ---- Main: the exit function and the server goroutines (possible since the engine follows a call through a variable of the enclosing
+// function that is assigned once, with a function literal, before the calling literal is created: `exitFunc`) ---------------------------------
+// Main$1 = exitFunc(err): every report of a server's exit goes through the once guard, handing over Main$1$1 (verified: one send of the
+// error on the exit channel) - so exactly one error is ever sent and a second report cannot block for ever on the unbuffered channel.
+//@ ghost r7NsqdExitReports int
+//@ ghost r7NsqdExitReported error
+//@ ghostgroup r7NsqdExitReports, r7NsqdExitReported
+//@ func (n *NSQD) Main$1(err error)
+//@   props C05 C10
+//@   nochan
+//@   ensures[through-the-once-guard] r7OnceDos == old(r7OnceDos) + 1 && r7OnceFn == "(*github.com/nsqio/nsq/nsqd.NSQD).Main$1$1"
+//@   modifies r7NsqdExitReports
+//@   onreturn r7NsqdExitReports := r7NsqdExitReports + 1
+//@   onreturn r7NsqdExitReported := err
+// Main$2 / Main$3 / Main$4 (TCP, HTTP, HTTPS server goroutines): one server loop on the daemon's own listener, and when it returns its
+// result is reported through exitFunc (a goroutine that returned without reporting would leave Main blocked although a server is gone).
+//@ func (n *NSQD) Main$2()
+//@   props C05 C10
+//@   requires n != nil && n.tcpListener != nil && n.tcpServer != nil
+//@   ensures[one-tcp-server-and-its-result-reported] r7TCPServerReturns == old(r7TCPServerReturns) + 1 && r7NsqdExitReported == r7TCPServerResult
+//@ func (n *NSQD) Main$3()
+//@   props C05 C10
+//@   requires n != nil && n.httpListener != nil && httpServer != nil
+//@   ensures[one-http-server-and-its-result-reported] r7ServeReturns == old(r7ServeReturns) + 1 && r7NsqdExitReported == r7ServeResult
+//@   ensures[plain-server-on-the-plain-listener] r5HSrvListener == old(n.httpListener) && dyntype(r5HSrvHandler) == typetag("*httpServer") && unbox(r5HSrvHandler, "*httpServer") == old(httpServer)
+//@ func (n *NSQD) Main$4()
+//@   props C05 C10
+//@   requires n != nil && n.httpsListener != nil && httpsServer != nil
+//@   ensures[one-https-server-and-its-result-reported] r7ServeReturns == old(r7ServeReturns) + 1 && r7NsqdExitReported == r7ServeResult
+//@   ensures[tls-server-on-the-tls-listener] r5HSrvListener == old(n.httpsListener) && dyntype(r5HSrvHandler) == typetag("*httpServer") && unbox(r5HSrvHandler, "*httpServer") == old(httpsServer)
